@@ -501,8 +501,8 @@ def selftest():
 def subchecks(tier, seed):
     quick = tier == "quick"
     return [
-        SubCheck("analytic", body_analytic, strategy=case_strategy(), examples=12000 if quick else 400000, shards=16 if quick else 32),
-        SubCheck("endpoints", body_endpoints, strategy=case_strategy().map(_no_scalar), examples=4000 if quick else 60000, shards=16),
+        SubCheck("analytic", body_analytic, strategy=case_strategy(), examples=8000 if quick else 250000, shards=16 if quick else 32),
+        SubCheck("endpoints", body_endpoints, strategy=case_strategy().map(_no_scalar), examples=3000 if quick else 40000, shards=16),
         SubCheck("pinned-analytic", body_analytic, cases=pinned_analytic(), shards=8),
         SubCheck("pinned-endpoints", body_endpoints, cases=pinned_endpoints(), shards=4),
     ]
